@@ -225,10 +225,16 @@ def run(tier):
         for s in pmap(make_worker(tier), chunks(list(enumerate(cases)), 40)):
             r.stats.merge(s)
     r.stats.c["transitions"] += tr
+    # visibility over whole import graphs (machinery shared with C20): a reference is accepted exactly when the file
+    # that makes it imports, directly or through its imports, the file that declares the type
+    from . import c20
+
+    r.bounds["import_graphs_with_one_reference"] = c20.run_graphs(r.stats, tier, prop="C08", with_refs=True)
     r.rule = (
         "states = (placement of the referenced declaration: before/after/self/undeclared/case-differs/imported before/after/module of module/dotted/inside module) x "
         "(wrapper chain over Arr, Dyn, Opt to the depth bound) x (0..2 unrelated declarations interleaved at every position); module cases run on a real scratch file tree. "
-        "oracle = resolution spec: accepted iff declared earlier; tag = declaration kind; error names type and enclosing struct. every state is non-trivial."
+        "oracle = resolution spec: accepted iff declared earlier; tag = declaration kind; error names type and enclosing struct. Plus every acyclic import graph over 4 files (and a family over 5) "
+        "with at most one cross-file reference: accepted exactly when the referring file's own imports reach the declaring file. every state is non-trivial."
     )
     r.assumptions = ["duplicate type names are C09's subject and are not in this space"]
     return r.finish()
